@@ -283,6 +283,10 @@ func (fr *Frame) callFunc(b *ssa.BasicBlock, f *ssa.Function, c *ssa.CallCommon,
 	if strings.HasPrefix(name, "verif_wheld[") || strings.HasPrefix(name, "verif_rheld[") || strings.HasPrefix(name, "verif_held[") {
 		return fr.heldPredicate(name, args, st)
 	}
+	if strings.HasPrefix(name, "verif_calls[") {
+		return fr.callsPredicate(args, st)
+	}
+	fr.countCall(f, args, st)
 	if strings.HasPrefix(name, "verif_chclosed[") {
 		if v, ok := fr.ghostPredicate("verif_chclosed", args, st); ok {
 			return v
